@@ -4,9 +4,12 @@ package enum
 
 // Contracts for package enum (comment-only; checked by /verif/engine).
 
+// a type is excluded when SOME pattern matches both its package path and its name
 //@ func IDPatterns.Matches
 //@   props C08
 //@   pure
+//@   loop 1 invariant forall j int :: 0 <= j && j < idx ==> !(ids[j].Path.MatchString(path) && ids[j].Name.MatchString(name))
+//@   ensures result == (exists j int :: 0 <= j && j < len(ids) && ids[j].Path.MatchString(path) && ids[j].Name.MatchString(name))
 
 // Detect only fills a map it allocates itself
 //@ func Detect
